@@ -92,6 +92,16 @@ Proof.
     repeat split; try assumption. destruct (v <? 5); [constructor|assumption].
 Qed.
 
+Lemma conn_metadata_only_proxy ok c r host port v :
+  match conn_metadata ok c r host port with
+  | Some resp => only_proxy host port resp /\ only_proxy host port (wire_cluster v resp)
+  | None => True
+  end.
+Proof.
+  unfold conn_metadata. destruct ok; [|exact I].
+  split; [apply metadata_only_proxy|apply wire_only_proxy, metadata_only_proxy].
+Qed.
+
 Lemma coordinator_only_proxy host port :
   coord_only_proxy host port (handle_find_coordinator host port) /\
   coord_only_proxy host port not_ready_coordinator.
